@@ -78,7 +78,8 @@ def collect_defs(cases):
     return out
 
 
-def build_lab(ctx, defs, pkg="lab", extra_thrift="", flags=(), services="", annotations=None, name="labdrv", extra_go=None):
+def build_lab(ctx, defs, pkg="lab", extra_thrift="", flags=(), services="", annotations=None, name="labdrv", extra_go=None,
+              extra_files=None, helpers=(), extra_structs=()):
     """Generate code for defs with the thriftrw binary built from /repo and build the lab driver.
     Returns (binary path, module dir)."""
     import time
@@ -92,6 +93,10 @@ def build_lab(ctx, defs, pkg="lab", extra_thrift="", flags=(), services="", anno
     text = extra_thrift + "\n" + "\n".join(render_def(d, annotations) for d in defs) + "\n" + services
     with open(os.path.join(idl, pkg + ".thrift"), "w") as f:
         f.write(text)
+    for rel, content in (extra_files or {}).items():
+        os.makedirs(os.path.dirname(os.path.join(idl, rel)), exist_ok=True)
+        with open(os.path.join(idl, rel), "w") as f:
+            f.write(content)
     with open(os.path.join(mod, "go.mod"), "w") as f:
         f.write("module labmod\n\ngo 1.22.1\n\nrequire go.uber.org/thriftrw v0.0.0\n\nreplace go.uber.org/thriftrw => %s\n" % vlib.REPO)
     shutil.copy(os.path.join(vlib.REPO, "go.sum"), os.path.join(mod, "go.sum"))
@@ -106,11 +111,14 @@ def build_lab(ctx, defs, pkg="lab", extra_thrift="", flags=(), services="", anno
     for fn, content in (extra_go or {}).items():
         with open(os.path.join(mod, fn), "w") as f:
             f.write(content)
-    structs = [d["name"] for d in defs if d["kind"] in ("struct", "union", "exception")]
+    structs = [d["name"] for d in defs if d["kind"] in ("struct", "union", "exception") and d.get("pkg", pkg) == pkg] + list(extra_structs)
     with open(os.path.join(mod, "registry.go"), "w") as f:
         f.write('package main\n\nimport lab "labmod/gen/%s"\n\nvar registry = map[string]func() labType{\n' % pkg)
         for n in structs:
             f.write('\t"%s": func() labType { return &lab.%s{} },\n' % (n, go_name(n)))
+        f.write("}\n\nvar helpers = map[string]interface{}{\n")
+        for hname in helpers:
+            f.write('\t"%s": lab.%s,\n' % (hname, hname))
         f.write("}\n")
     out_bin = os.path.join(ctx.dir("bin"), name)
     rc, out = vlib.run(["go", "build", "-o", out_bin, "."], cwd=mod, env=vlib.env_go(), timeout=1200)
